@@ -1118,7 +1118,7 @@ class RlaGetItemDispatch(Family):
     name = "RunLengthArray.__getitem__"
     qualname = "npstructures.runlengtharray:RunLengthArray.__getitem__"
     serves = ["C15"]
-    assumed = ["callee contracts: _get_position, _get_slice, _start_to_end (own families); RunLengthRaggedArray(...).ravel() (bounded stand-in)",
+    assumed = ["callee contracts: _get_position, _get_slice, _start_to_end scalar and vector form, RunLengthRaggedArray.ravel (own families)",
                "numpy.flatnonzero contract (rank / position functions)"]
 
     def kinds(self):
@@ -1257,5 +1257,85 @@ class RlaGetItemDispatch(Family):
 
     def concretise(self, kind, model, ghost):
         return {"a": [1, 1, 2, 3, 3]}
+
+    bounded_cases = RlaUfunc.bounded_cases
+
+
+@register
+class RlaStartToEndVector(Family):
+    """_start_to_end(starts, ends), vector form (run-length masks and rla[starts:ends] windows): for k windows with 0 <= starts[i] < ends[i] <= N
+    row i of the returned ragged (events, values) pair is a canonical run-length encoding of length ends[i] - starts[i] whose dense content is
+    Dense[starts[i] + p].  ragged_slice and the ragged operations on its result enter through their contracts (SpecRagged, audited)."""
+    name = "RunLengthArray._start_to_end[vector]"
+    qualname = "npstructures.runlengtharray:RunLengthArray._start_to_end"
+    serves = ["C15", "C17"]
+    timeout_ms = 30000
+    assumed = ["numpy.searchsorted (left and right) with a vector of needles on the sorted run boundaries",
+               "callee contract ragged_slice(array, starts, ends): row i = array[starts[i]:ends[i]] (window arithmetic proved in raggedslice.ragged_slice; gather in build_indices)",
+               "RaggedArray operations through their contracts (SpecRagged: x - column, x[..., 0] = v, x[..., -1] = v; audited)"]
+
+    def run(self, ctx, kind):
+        import npstructures.runlengtharray as mod
+        from .specragged import spec_ragged_slice
+        a = sym_rla(ctx)
+        m, E, V, N = a.m, a.E, a.V, a.n
+        k = z3.Int("k")
+        ctx.assume(k >= 0)
+        st = SymArr.symbolic("starts", k, "int", np.int64, assume_len=False)
+        en = SymArr.symbolic("ends", k, "int", np.int64, assume_len=False)
+        ST, EN = st.fn, en.fn
+        ctx.assume_forall("windows are non-empty and inside the array", lambda i_: z3.Implies(z3.And(0 <= i_, i_ < k), z3.And(0 <= ST(i_), ST(i_) < EN(i_), EN(i_) <= N)))
+        ctx.add_index(m, m - 1, m + 1, z3.IntVal(0), z3.IntVal(1))
+        log = {}
+        log["pool_for_window_pre"] = lambda i_: [i_, m, m - 1, m + 1, z3.IntVal(0), z3.IntVal(1)]
+        old = mod.ragged_slice
+        mod.ragged_slice = spec_ragged_slice(log)
+        try:
+            ev, va = a.obj._start_to_end(st, en)
+        finally:
+            mod.ragged_slice = old
+        wv, we = log["ragged_slice"][0], log["ragged_slice"][1]
+        si, ei = wv["starts"], wv["ends"]              # start_idx, end_idx as handed to ragged_slice for the values
+        ctx.prove("post.values are cut out of the value array, boundaries out of the boundary array", z3.BoolVal(wv["array"] is a.va and we["array"] is a.ev))
+        i = z3.Int("i")
+        ctx.skolem(z3.And(0 <= i, i < k))
+        base = [i, si(i), si(i) + 1, ei(i), ei(i) - 1, ei(i) + 1, m, m - 1, z3.IntVal(0)]
+        ctx.prove_then_assume("post.lemma: the run window [si, ei) of window i: run si contains starts[i], run ei-1 contains ends[i]-1",
+                              z3.And(0 <= si(i), si(i) < ei(i), ei(i) <= m, E(si(i)) <= ST(i), ST(i) < E(si(i) + 1), E(ei(i) - 1) < EN(i), EN(i) <= E(ei(i)),
+                                     we["starts"](i) == si(i), we["ends"](i) == ei(i) + 1), pool=base)
+        nr = ei(i) - si(i)
+        ctx.prove("post.row i has ei - si >= 1 runs and one boundary more", z3.And(va._shape.L(i) == nr, ev._shape.L(i) == nr + 1, nr >= 1,
+                                                                                  ev._shape.n == k, va._shape.n == k), pool=base)
+        ctx.prove("post.row i: first boundary 0, last boundary ends[i] - starts[i]", z3.And(ev.cell(i, z3.IntVal(0)) == 0, ev.cell(i, nr) == EN(i) - ST(i)), pool=base)
+        t = z3.Int("t")
+        ctx.skolem(z3.And(0 <= t, t < nr))
+        pool = base + [t, t + 1, si(i) + t, si(i) + t + 1]
+        ctx.prove("post.row i: run t carries the value of source run si + t", va.cell(i, t) == V(si(i) + t), pool=pool)
+        ctx.prove("post.row i: strictly increasing boundaries", ev.cell(i, t) < ev.cell(i, t + 1), pool=pool)
+        p, u = z3.Int("p"), z3.Int("u")
+        ctx.skolem(z3.And(ev.cell(i, t) <= p, p < ev.cell(i, t + 1)))
+        ctx.skolem(z3.And(0 <= u, u < m, E(u) <= ST(i) + p, ST(i) + p < E(u + 1)))
+        ctx.prove("post.Dense'[i][p] == Dense[starts[i] + p]: position p of row i lies in the run cut from the source run containing starts[i] + p",
+                  z3.And(u == si(i) + t, va.cell(i, t) == V(u)), pool=pool + [u, u + 1, p], live=[p])
+        ctx.prove("post.operand not modified", z3.BoolVal(a.ev.buf.writes == 0 and a.va.buf.writes == 0))
+
+    def concrete(self, case):
+        from npstructures import RunLengthArray
+        x = np.array(case["a"])
+        r = RunLengthArray.from_array(x)
+        n = len(x)
+        wins = [(lo, hi) for lo in range(n) for hi in range(lo + 1, n + 1)]
+        if not wins:
+            return None
+        starts, ends = np.array([w[0] for w in wins]), np.array([w[1] for w in wins])
+        got = r[starts:ends]
+        rows = [np.asarray(row).tolist() for row in got]
+        exp = [x[lo:hi].tolist() for lo, hi in wins]
+        if rows != exp:
+            bad = [j for j in range(len(wins)) if rows[j] != exp[j]][0]
+            return {"msg": f"rla[starts:ends] with rla = {case['a']}, window {wins[bad]}: {rows[bad]}, numpy {exp[bad]}", "sig": "wrong:rla-windows"}
+
+    def concretise(self, kind, model, ghost):
+        return {"a": [1, 1, 2, 3, 3, 3, 1]}
 
     bounded_cases = RlaUfunc.bounded_cases
